@@ -165,6 +165,11 @@ type SeedBadRec struct {
 	Next *SeedBadRec
 	C    chan int
 }
+// inline on a pointer to a primitive: refused by type, whatever the value - also the second time
+type SeedBadInline struct {
+	A int
+	P *int `struct:",inline"`
+}
 type SeedBad1 struct{ C chan int }
 type SeedBad2 struct{ F func() }
 type SeedBad3 struct{ C complex128 }
@@ -394,6 +399,7 @@ func seeds() []seed {
 		{name: "SeedBuiltinFolders", vals: seedBuiltinValues(), opts: []gotype.FoldOption{gotype.Folders(foldSeedLevel, foldSeedFloat, foldSeedBytes)}, custom: seedBuiltinCustom},
 		{name: "SeedShapedFolders", vals: seedShapedValues(), opts: []gotype.FoldOption{gotype.Folders(foldSeedLabels, foldSeedBox, foldSeedOne)}, custom: seedShapedCustom},
 		{"SeedBad1", []interface{}{SeedBad1{}, SeedBad1{C: make(chan int)}}, nil, nil},
+		{"SeedBadInline", []interface{}{SeedBadInline{A: 1}, SeedBadInline{A: 1, P: new(int)}, &SeedBadInline{A: 2}, []SeedBadInline{{A: 3}}}, nil, nil},
 		{"SeedBadRec", []interface{}{SeedBadRec{}, &SeedBadRec{}, []SeedBadRec{{}}, map[string]*SeedBadRec{"k": {}}}, nil, nil},
 		{"SeedBad2", []interface{}{SeedBad2{}}, nil, nil},
 		{"SeedBad3", []interface{}{SeedBad3{C: 1i}}, nil, nil},
